@@ -245,6 +245,9 @@ class DRYRule(BaseLintRule):  # pylint: disable=too-many-instance-attributes
         self._helpers.inline_ignore.clear()
         self._constants = []
         self._file_contents = {}
+        # Reset cross-file storage so that a long-lived Linter does not re-report earlier runs
+        self._storage = None
+        self._initialized = False
         return violations
 
 
